@@ -428,6 +428,10 @@ def main_check(prop, tier, seed, repo, replay=None, jobs=None):
             got = tot["monitors"].get(mname, {}).get("evals", 0)
             if got < need:
                 inconclusive.append("monitor %s reached %d in-domain evaluations (< %d)" % (mname, got, need))
+        for key, need in plan.get("min_known", {}).items():
+            if key in load_known_findings(prop) and tot["known"].get(key, 0) < need:
+                inconclusive.append("open known finding %s was observed %d times (< %d): its classifier or workload no longer reaches it"
+                                    % (key, tot["known"].get(key, 0), need))
         for c in plan["classes"]:
             if tot["classes"].get(c, 0) == 0:
                 inconclusive.append("input class %s never produced" % c)
